@@ -76,6 +76,7 @@ type c17RespCase struct {
 	Protocol      int // 0 connect, 1 grpc, 2 grpc-web
 	RPC           int // index into c17RPCs
 	NReq          int // request messages (1 for Unary / ServerStream; 0..3 for the client-streaming ones)
+	BadAt         int // > 0: this later request message cannot be decoded (the raw response was chosen by the first one)
 	Timeout       bool
 	JSON          bool
 	HandlerFields bool
@@ -134,6 +135,9 @@ func c17GenRespCase(g *c17Gen) *c17RespCase {
 		if zero && c17GenZeroRequestStream {
 			c.NReq = 0
 		}
+		if c.NReq >= 2 && t.Bool(1, 4, "bad-later-request-message") {
+			c.BadAt = 1 + t.Choose(c.NReq-1, "bad-at")
+		}
 	}
 	return c
 }
@@ -154,7 +158,7 @@ func (c *c17RespCase) raw() *conformancev1.RawHTTPResponse {
 func (c *c17RespCase) sample() map[string]any {
 	return map[string]any{
 		"http": map[bool]string{false: "1.1", true: "2 (h2c)"}[c.H2], "protocol": []string{"connect", "grpc", "grpc-web"}[c.Protocol],
-		"rpc": c17RPCs[c.RPC], "request_messages": c.NReq, "timeout_header": c.Timeout, "json": c.JSON, "handler_fields_also_set": c.HandlerFields,
+		"rpc": c17RPCs[c.RPC], "request_messages": c.NReq, "undecodable_later_request_message": c.BadAt, "timeout_header": c.Timeout, "json": c.JSON, "handler_fields_also_set": c.HandlerFields,
 		"status": c.Status, "headers": c17DescribeHeaders(c.Headers), "trailers": c17DescribeHeaders(c.Trailers), "body": c.Body.describe(),
 	}
 }
@@ -209,7 +213,7 @@ func (c *c17RespCase) request(ctx context.Context, addr string) (*http.Request, 
 	}
 	enveloped := c.Protocol != 0 || c.streaming()
 	var body []byte
-	for _, msg := range msgs {
+	for i, msg := range msgs {
 		var data []byte
 		var err error
 		if c.JSON {
@@ -219,6 +223,12 @@ func (c *c17RespCase) request(ctx context.Context, addr string) (*http.Request, 
 		}
 		if err != nil {
 			return nil, err
+		}
+		if c.BadAt > 0 && i == c.BadAt {
+			data = []byte("{\"requestData\": not json") // neither JSON nor a protobuf message
+			if !c.JSON {
+				data = []byte{0x0a, 0xff, 0xff, 0xff, 0xff, 0x0f, 0x01}
+			}
 		}
 		if enveloped {
 			data = c17Envelope(0, data)
@@ -529,6 +539,9 @@ func c17JudgeResponse(c *c17RespCase, obs *c17RespObs, res *simwork.Result) {
 // c17ShapeProbes counts the request shapes through which a raw response was
 // asked for (only completed exchanges).
 func c17ShapeProbes(c *c17RespCase, res *simwork.Result) {
+	if c.BadAt > 0 {
+		res.Probes["raw-with-undecodable-later-request-message"]++
+	}
 	switch c.RPC {
 	case 2:
 		res.Probes["raw-via-client-stream"]++
